@@ -71,6 +71,9 @@ def partition_circuit_qubits(
         circuit = circuit.copy()
 
     # Find 2-qubit gates spanning more than one partition and replace it with a QPDGate.
+    # The replacements are applied only after the whole circuit has been checked, so
+    # that an invalid input leaves the circuit untouched even when ``inplace=True``.
+    replacements = []
     for i, instruction in enumerate(circuit.data):
         if instruction.operation.name == "barrier":
             continue
@@ -96,7 +99,10 @@ def partition_circuit_qubits(
             continue
 
         qpd_gate = TwoQubitQPDGate.from_instruction(instruction.operation)
-        circuit.data[i] = CircuitInstruction(qpd_gate, qubits=qubit_indices)
+        replacements.append((i, CircuitInstruction(qpd_gate, qubits=qubit_indices)))
+
+    for i, new_instruction in replacements:
+        circuit.data[i] = new_instruction
 
     return circuit
 
